@@ -27,6 +27,12 @@ for pid in ids:
         'technique': meta['technique'],
     })
 hooks = json.load(open(os.path.join(V, 'props', 'hooks.json')))
+import subprocess
+try:
+    out = subprocess.run(['git', '-C', '/repo', 'log', '--format=%h %s'], stdout=subprocess.PIPE, universal_newlines=True).stdout
+    hooks['source_commits'] = [l.split()[0] for l in out.split('\n') if l[8:].startswith('verif hooks') or ' verif hooks' in l[:20]][::-1]
+except Exception:
+    pass
 m = {
     'version': 1,
     'setup_cmd': './setup.sh',
